@@ -208,24 +208,29 @@ Definition debond_complete (bal ts shares : N) : res N :=
    delegations-inner; the per-validator maps are disjoint and every error is
    equally fatal, so the port computes validator by validator (same maps, same
    Ok/Fatal outcome). *)
-Inductive vote := VYes | VNo | VAbstain.
-Definition vote_eqb (a b : vote) : bool :=
-  match a, b with
-  | VYes, VYes | VNo, VNo | VAbstain, VAbstain => true
-  | _, _ => false
-  end.
+(* governance.Vote is a uint8; yes = 1, no = 2, abstain = 3 (proposal.go:176-178) but
+   castVote stores ANY value (apps/governance/transactions.go:222-330 has no check), and
+   the tally keeps one entry per distinct value. *)
+Definition vote := N.
+Definition VYes : vote := 1.
+Definition VNo : vote := 2.
+Definition VAbstain : vote := 3.
+Definition nvotes : nat := 256.
 
-(* per-validator share map: (yes, no, abstain) *)
-Definition shmap := (N * N * N)%type.
-Definition sh_get (m : shmap) (v : vote) : N :=
-  let '(y, n, a) := m in match v with VYes => y | VNo => n | VAbstain => a end.
-Definition sh_set (m : shmap) (v : vote) (x : N) : shmap :=
-  let '(y, n, a) := m in
-  match v with VYes => (x, n, a) | VNo => (y, x, a) | VAbstain => (y, n, x) end.
+(* per-validator share map / result map: vote value -> amount (map[Vote]quantity.Quantity;
+   an absent key is zero) *)
+Definition shmap := N -> N.
+Definition sh_empty : shmap := fun _ => 0.
+Definition sh_upd (m : shmap) (v : vote) (x : N) : shmap := fun w => if w =? v then x else m w.
+Fixpoint fsum (n : nat) (f : N -> N) : N :=
+  match n with O => 0 | S k => fsum k f + f (N.of_nat k) end.
+(* sum over all 256 possible vote values (VotedSum, proposal.go:106-114) *)
+Definition sh_sum (m : shmap) : N := fsum nvotes m.
+
 (* addShares / subShares: governance.go:500-519 *)
-Definition add_shares (m : shmap) (v : vote) (x : N) : shmap := sh_set m v (sh_get m v + x).
+Definition add_shares (m : shmap) (v : vote) (x : N) : shmap := sh_upd m v (m v + x).
 Definition sub_shares (m : shmap) (v : vote) (x : N) : res shmap :=
-  do r <- qsub (sh_get m v) x ; Ok (sh_set m v r).
+  do r <- qsub (m v) x ; Ok (sh_upd m v r).
 
 Fixpoint vote_of (who : N) (votes : list (N * vote)) : option vote :=
   match votes with
@@ -243,7 +248,7 @@ Fixpoint deleg_shares (d to : N) (delegs : list (N * N * N)) : option N :=
 Definition tally_step (own : option vote) (m : shmap) (v : vote) (s : N) : res shmap :=
   match own with
   | Some ov =>
-      if vote_eqb ov v then Ok m                           (* :437-439 *)
+      if ov =? v then Ok m                                 (* :437-439 *)
       else do m1 <- sub_shares m ov s ;                    (* :442-446 *)
            Ok (add_shares m1 v s)                          (* :449-451 *)
   | None => Ok (add_shares m v s)
@@ -263,27 +268,26 @@ Fixpoint tally_votes (to : N) (own : option vote) (delegs : list (N * N * N))
 (* share map of one validator after both loops (governance.go:407-456) *)
 Definition validator_shares (to ts : N) (delegs : list (N * N * N)) (votes : list (N * vote)) : res shmap :=
   let own := vote_of to votes in
-  let m0 := match own with Some ov => add_shares (0, 0, 0) ov ts | None => (0, 0, 0) end in  (* :411-421 *)
+  let m0 := match own with Some ov => add_shares sh_empty ov ts | None => sh_empty end in  (* :411-421 *)
   tally_votes to own delegs votes m0.
 
-(* stake of the three entries of one validator (governance.go:459-487) *)
-Definition validator_stakes (bal ts : N) (m : shmap) : res shmap :=
-  let '(y, n, a) := m in
-  do sy <- stake_for_shares bal ts y ;
-  do sn <- stake_for_shares bal ts n ;
-  do sa <- stake_for_shares bal ts a ;
-  Ok (sy, sn, sa).
+(* StakeForShares as a total function: its only division is guarded by the
+   zero tests of the same function (api.go:682-685 vs :696), see
+   NoHalt.Proofs.stake_for_shares_pure *)
+Definition stake_pure (bal ts shares : N) : N :=
+  if (shares =? 0) || (bal =? 0) || (ts =? 0) then 0 else shares * bal / ts.
+
+(* stake of every entry of one validator (governance.go:459-487) *)
+Definition validator_stakes (bal ts : N) (m : shmap) : shmap := fun v => stake_pure bal ts (m v).
 
 Fixpoint tally_results (validators : list (N * N * N)) (delegs : list (N * N * N))
          (votes : list (N * vote)) : res shmap :=
   match validators with
-  | [] => Ok (0, 0, 0)
+  | [] => Ok sh_empty
   | (to, bal, ts) :: r =>
       do m <- validator_shares to ts delegs votes ;
-      do st <- validator_stakes bal ts m ;
       do rest <- tally_results r delegs votes ;
-      let '(y, n, a) := st in let '(y', n', a') := rest in
-      Ok (y + y', n + n', a + a')
+      Ok (fun v => validator_stakes bal ts m v + rest v)
   end.
 
 Fixpoint total_voting_stake (validators : list (N * N * N)) : N :=
@@ -297,8 +301,8 @@ Fixpoint total_voting_stake (validators : list (N * N * N)) : N :=
 Definition close_proposal (results : shmap) (total threshold : N) : res bool :=
   if total =? 0 then Fatal                                 (* :129-131 *)
   else
-    let '(y, n, a) := results in
-    let voted := y + n + a in                              (* VotedSum :106-114 *)
+    let voted := sh_sum results in                         (* VotedSum :106-114 *)
+    let y := results VYes in
     if total <? voted then Fatal                           (* :137-141 *)
     else if y =? 0 then Ok false                           (* :143-148 *)
     else
@@ -346,7 +350,7 @@ Inductive outv :=
 | OQuad (a b c d : N)
 | OPair (a b : N)
 | OOne (a : N)
-| OTally (y n a : N) (passed : bool).
+| OTally (y n a other : N) (passed : bool).   (* other = all entries except yes/no/abstain *)
 
 Definition run_call (c : call) : outv :=
   match c with
@@ -370,7 +374,7 @@ Definition run_call (c : call) : outv :=
       match debond_complete b t s with Ok x => OOne x | Fatal => OFatal end
   | CTally vs ds vt th =>
       match tally vs ds vt th with
-      | Ok ((y, n, a), p) => OTally y n a p
+      | Ok (r, p) => OTally (r VYes) (r VNo) (r VAbstain) (sh_sum r - r VYes - r VNo - r VAbstain) p
       | Fatal => OFatal
       end
   end.
@@ -383,6 +387,6 @@ Definition outv_eqb (a b : outv) : bool :=
   | OQuad a1 a2 a3 a4, OQuad b1 b2 b3 b4 => (a1 =? b1) && (a2 =? b2) && (a3 =? b3) && (a4 =? b4)
   | OPair a1 a2, OPair b1 b2 => (a1 =? b1) && (a2 =? b2)
   | OOne a1, OOne b1 => a1 =? b1
-  | OTally y n a p, OTally y' n' a' p' => (y =? y') && (n =? n') && (a =? a') && Bool.eqb p p'
+  | OTally y n a o p, OTally y' n' a' o' p' => (y =? y') && (n =? n') && (a =? a') && (o =? o') && Bool.eqb p p'
   | _, _ => false
   end.
